@@ -115,7 +115,7 @@ def _regen_crctable(ctx):
 
 def harness_regen(ctx, sub, outfile):
     """regeneration steps implemented inside the harness (they need the compiled repository)"""
-    rc, out = sh([os.path.join(BIN, 'fitharness'), sub, os.path.join(LEAN, 'FitModel', 'Generated', outfile)], env=GOENV)
+    rc, out = sh([os.path.join(BIN, 'fitharness'), 'regen', sub, os.path.join(LEAN, 'FitModel', 'Generated', outfile)], env=GOENV)
     if rc != 0:
         ctx.fail('tool', f'translator {sub} failed', detail=out[-2000:])
         return False
